@@ -12,13 +12,15 @@ import (
 func init() {
 	register(&Prop{
 		ID:          "C08",
-		Explanation: "Decides that the authorisation predicates guard every serving path: every nil-error return of getAuthenticatedSession that is not a configured bypass re-ran Validator(session.Email) (skipped only for an empty e-mail) and provider.Authorize(session) with outcome true, and every ErrAccessDenied return first calls ClearSessionCookie; the login callback saves a session only after Validator(session.Email) && Authorize(session); the auth-only 202 writer is reached only after authOnlyAuthorize(req, session)==true for the session getAuthenticatedSession returned; authOnlyAuthorize returns true only for a nil session or after every element of a constraint list containing the three query constraints returned true; each query constraint returns true only when its parameter is absent or a membership test on the session's own field succeeded; the only Provider.Authorize implementation returns true only for an empty allowed-groups map or a membership hit of a session group; isEmailValidWithDomains accepts only through suffix tests applied to an end-anchored part of the address (the address or its last '@'-separated element) against an operand that starts at '@' or at a '.' label boundary, and the validator closure answers true only by that rule, the authenticated-emails file or the '*' rule and never for an empty address; the allow-list/htpasswd file watcher runs its reload action on every path that selected a remove/create/write event and WaitForReplacement returns only after the watch was re-added. Added during the build: accepting paths of the e-mail validator (R5); allow-list reload on every selected file event with re-armed watch (R6); IsEndpointAllowed/isHostnameAllowed accepting paths used by the allowed-email-domains constraint (R7, shared with C06.R4). Round 3: the operator's allowed_groups reach ProviderData.AllowedGroups and are replaced afterwards only by a list known to be non-empty (R8); clearing a refused session expires the ticket cookie on every path (R9). Round 4: setAllowedGroups stores every configured entry as a key, unchanged, so a configured list never yields the empty map Authorize reads as 'no restriction' (under R8); the two builders of bearer-token sessions never return a session whose e-mail was found empty without filling it, because an empty e-mail is the htpasswd exemption from the e-mail rules (R10). Round 7: request handling keeps no state of its own between requests — no store, map update, in-place builtin, atomic/sync.Map write or pointer-receiver library call (singleflight, caches) reached from ServeHTTP targets a package-level variable, an object built at start-up, or a constructor variable captured by the handler it returned, declared in the packages implementing this property (RS; a class-wide who-may-write rule with zero instances today: a correct memoisation would be reported until reviewed). A request that waited for the refresh lock is authorised on the session reloaded from the store, overwritten as a whole (R11, shared with C12.R2); WaitForReplacement re-arms on the file's existence alone (under R6). Round 8: the Google group validator replaces the session's groups on every path by the memberships it just found, also when it finds none (R12).",
+		Explanation: "Decides that the authorisation predicates guard every serving path: every nil-error return of getAuthenticatedSession that is not a configured bypass re-ran Validator(session.Email) (skipped only for an empty e-mail) and provider.Authorize(session) with outcome true, and every ErrAccessDenied return first calls ClearSessionCookie; the login callback saves a session only after Validator(session.Email) && Authorize(session); the auth-only 202 writer is reached only after authOnlyAuthorize(req, session)==true for the session getAuthenticatedSession returned; authOnlyAuthorize returns true only for a nil session or after every element of a constraint list containing the three query constraints returned true; each query constraint returns true only when its parameter is absent or a membership test on the session's own field succeeded; the only Provider.Authorize implementation returns true only for an empty allowed-groups map or a membership hit of a session group; isEmailValidWithDomains accepts only through suffix tests applied to an end-anchored part of the address (the address or its last '@'-separated element) against an operand that starts at '@' or at a '.' label boundary, and the validator closure answers true only by that rule, the authenticated-emails file or the '*' rule and never for an empty address; the allow-list/htpasswd file watcher runs its reload action on every path that selected a remove/create/write event and WaitForReplacement returns only after the watch was re-added. Added during the build: accepting paths of the e-mail validator (R5); allow-list reload on every selected file event with re-armed watch (R6); IsEndpointAllowed/isHostnameAllowed accepting paths used by the allowed-email-domains constraint (R7, shared with C06.R4). Round 3: the operator's allowed_groups reach ProviderData.AllowedGroups and are replaced afterwards only by a list known to be non-empty (R8); clearing a refused session expires the ticket cookie on every path (R9). Round 4: setAllowedGroups stores every configured entry as a key, unchanged, so a configured list never yields the empty map Authorize reads as 'no restriction' (under R8); the two builders of bearer-token sessions never return a session whose e-mail was found empty without filling it, because an empty e-mail is the htpasswd exemption from the e-mail rules (R10). Round 7: request handling keeps no state of its own between requests — no store, map update, in-place builtin, atomic/sync.Map write or pointer-receiver library call (singleflight, caches) reached from ServeHTTP targets a package-level variable, an object built at start-up, or a constructor variable captured by the handler it returned, declared in the packages implementing this property (RS; a class-wide who-may-write rule with zero instances today: a correct memoisation would be reported until reviewed). A request that waited for the refresh lock is authorised on the session reloaded from the store, overwritten as a whole (R11, shared with C12.R2); WaitForReplacement re-arms on the file's existence alone (under R6). Round 8: the Google group validator replaces the session's groups on every path by the memberships it just found, also when it finds none (R12). Round 9: the operator's email_domains are rewritten by nobody between option loading and the validator (R13).",
 		NotDecided:  "value semantics of the string predicates beyond their accepting-path structure (case folding, unusual local parts), IsEndpointAllowed for auth-only domain constraints (see C06.R4), UserMap contents.",
 		Run:         runC08,
 	})
 }
 
 func runC08(c *Ctx) {
+	c.R.Rule("R13-email-domains-verbatim", "the operator's email_domains are rewritten by nobody between option loading and the validator built from them (the validator's own constructor lower-cases its copy; round 9)", 1)
+	runEmailDomainsVerbatim(c, "R13-email-domains-verbatim")
 	c.R.Rule("R12-google-validator-rederives-groups", "the Google group validator replaces the session's groups by the memberships it just found on every path, also when it finds none (round 8)", 1)
 	runGoogleValidatorRederivesGroups(c, "R12-google-validator-rederives-groups")
 	c.R.Rule("R11-authorised-on-the-reloaded-session", "a request that waited for the refresh lock continues — and is authorised — with the session reloaded from the store, overwritten as a whole (shared with C12.R2, round 7)", 1)
